@@ -972,7 +972,7 @@ func zeroWriteNodes(c *Ctx, pk interface{}, g *flow.Graph) []*flow.Node {
 
 // R06.9 (= R09.16): character data never contains `]]>`.
 func (c *Ctx) r069(rule, rel string) {
-	c.R.Rule(rule, "XML 1.0 §2.4: the string `]]>` must not occur in character data, so the `>` after `]]` has to stay `&gt;`. The minifier decodes `&gt;` in text, turns short CDATA sections into text (the usual way to write `]]>` inside CDATA is to split it over two sections: `<![CDATA[x]]]]><![CDATA[>y]]>`) and drops comments between texts — each of which can put a `>` behind `]]` in the output. In "+rel+".(*Minifier).Minify the data written for a text token, and the text that replaces a CDATA section, are results of a function of the package that writes `&gt;` (the escaper, which is told how many `]` ended the character data written before); no other assignment to the data lies between that call and the write")
+	c.R.Rule(rule, "XML 1.0 §2.4: the string `]]>` must not occur in character data, so the `>` after `]]` has to stay `&gt;`. The minifier decodes `&gt;` in text, turns short CDATA sections into text (the usual way to write `]]>` inside CDATA is to split it over two sections: `<![CDATA[x]]]]><![CDATA[>y]]>`) and drops comments between texts — each of which can put a `>` behind `]]` in the output. In "+rel+".(*Minifier).Minify the data written for a text token, and the text that replaces a CDATA section, are results of a function of the package that writes `&gt;` (the escaper, which is told how many `]` ended the character data written before); no other assignment to the data lies between that call and the write; the escaper itself is a single pass over the data with one counter of consecutive `]` — the carried count, incremented on `]`, compared once with 2 in front of `>`, reset to 0 otherwise — any other shape (searching with bytes.Index, a second counter) is reported as undecided")
 	pk := c.pkg(rule, rel)
 	if pk == nil {
 		return
@@ -1100,4 +1100,106 @@ func (c *Ctx) r069(rule, rel string) {
 	}
 	c.R.Floor(rule, "writes of text token data", n, 1)
 	c.R.Floor(rule, "CDATA sections converted to text", m, 1)
+	// (c) the escaper itself is the one-pass counter automaton
+	for _, efd := range load.FuncDecls(pk) {
+		if efd.Body == nil || efd.Recv != nil || efd.Type.Params == nil {
+			continue
+		}
+		writesGt := false
+		ast.Inspect(efd.Body, func(z ast.Node) bool {
+			if bl, ok := z.(*ast.BasicLit); ok && bl.Kind == token.STRING && strings.Contains(bl.Value, "&gt;") {
+				writesGt = true
+			}
+			return true
+		})
+		if !writesGt {
+			continue
+		}
+		// parameters: a byte slice and an int counter
+		var data, cnt types.Object
+		for _, f := range efd.Type.Params.List {
+			for _, nm := range f.Names {
+				o := info.Defs[nm]
+				if isByteSlice(o.Type()) && data == nil {
+					data = o
+				} else if isIntType(o.Type()) && cnt == nil {
+					cnt = o
+				}
+			}
+		}
+		construct := rel + "." + load.FuncName(efd) + "/one pass with one bracket counter"
+		if data == nil || cnt == nil {
+			c.R.Unres(rule, construct, c.pos(efd), "the escaper does not take the data and the count of `]` that ended the previous run")
+			continue
+		}
+		var problems []string
+		ranges, incs, resets, guards := 0, 0, 0, 0
+		ast.Inspect(efd.Body, func(z ast.Node) bool {
+			switch e := z.(type) {
+			case *ast.RangeStmt:
+				if id, ok := ast.Unparen(e.X).(*ast.Ident); ok && info.Uses[id] == data {
+					ranges++
+				}
+			case *ast.IncDecStmt:
+				if id, ok := e.X.(*ast.Ident); ok && info.Uses[id] == cnt && e.Tok == token.INC {
+					incs++
+				}
+			case *ast.AssignStmt:
+				for i, l := range e.Lhs {
+					if id, ok := l.(*ast.Ident); ok && info.Uses[id] == cnt && i < len(e.Rhs) {
+						if k, isK := intConst(info, e.Rhs[i]); isK && k == 0 {
+							resets++
+						} else {
+							problems = append(problems, "the counter is assigned "+str(e.Rhs[i]))
+						}
+					}
+				}
+			case *ast.BinaryExpr:
+				// 2 <= cnt  /  cnt >= 2  /  1 < cnt  /  cnt > 1
+				for _, pr := range [][2]ast.Expr{{e.X, e.Y}, {e.Y, e.X}} {
+					id, ok := ast.Unparen(pr[0]).(*ast.Ident)
+					if !ok || info.Uses[id] != cnt {
+						continue
+					}
+					if k, isK := intConst(info, pr[1]); isK {
+						flip := pr[0] == e.Y
+						op := e.Op
+						if flip {
+							switch op {
+							case token.LSS:
+								op = token.GTR
+							case token.LEQ:
+								op = token.GEQ
+							case token.GTR:
+								op = token.LSS
+							case token.GEQ:
+								op = token.LEQ
+							}
+						}
+						if op == token.GEQ && k == 2 || op == token.GTR && k == 1 {
+							guards++
+						} else {
+							problems = append(problems, "the counter is compared by "+str(e))
+						}
+					}
+				}
+			case *ast.CallExpr:
+				if cn := calleeName(info, e); strings.HasPrefix(cn, "bytes.Index") || strings.HasPrefix(cn, "bytes.Contains") || strings.HasPrefix(cn, "bytes.HasPrefix") || strings.HasPrefix(cn, "bytes.Count") {
+					problems = append(problems, "the data is searched with "+cn[strings.LastIndex(cn, ".")+1:]+" next to the counter")
+				}
+			}
+			return true
+		})
+		if ranges != 1 {
+			problems = append(problems, fmt.Sprintf("%d range loops over the data", ranges))
+		}
+		if incs != 1 || resets != 1 || guards != 1 {
+			problems = append(problems, fmt.Sprintf("%d increments, %d resets, %d comparisons `2 <= counter`", incs, resets, guards))
+		}
+		if len(problems) == 0 {
+			c.R.OK(rule, construct, c.pos(efd), "one range loop; the counter is incremented on `]`, compared once with 2, reset otherwise")
+		} else {
+			c.R.Unres(rule, construct, c.pos(efd), "the escaper is not the one-pass automaton this rule can judge ("+strings.Join(problems, "; ")+"): a `]]>` that straddles two runs of character data — one `]` at the end of the previous run, `]>` at the start of this one — is the case such rewrites get wrong, and it cannot be decided here")
+		}
+	}
 }
